@@ -40,6 +40,7 @@ ENGINE = "web"
 TECHNIQUE = "route x method x credential x XSRF x Sec-Fetch-Site enumeration against the live application, state digest + taint tags"
 BUDGET = {"quick": (9000, 8), "thorough": (60_000, 200)}
 WORKERS = {"quick": 4, "thorough": 16}
+MIN_CASES = {"quick": 600, "thorough": 600}  # stage A (positive controls, sharpest probes) always runs, however slow the start-up was
 REQUIRED = [
     "unauth_status",
     "unauth_no_disclosure",
